@@ -142,6 +142,16 @@ def apply_op(md, model, op, k, k2, val, jval, dflt):
         want = model.pop(k, dflt)
         if got != want:
             raise Violation('pop with default returned a different value')
+    elif op in ('pop-default-none', 'pop-default-true', 'pop-default-zero'):
+        # the default IS (the same object as) a value that may be stored under the key
+        dv = {'pop-default-none': None, 'pop-default-true': True, 'pop-default-zero': 0}[op]
+        try:
+            got = md.pop(k, dv)
+        except Exception as e:
+            raise Violation(f'pop with a default raised {type(e).__name__}', msg=holes.symstr(e))
+        want = model.pop(k, dv)
+        if got != want:
+            raise Violation('pop with default returned a different value')
     elif op == 'popitem':
         if model:
             try:
@@ -172,6 +182,8 @@ def h_meta(s1: int, s2: int, t1: int, t2: int, iv: int, jv: int, dflt: int, prob
         model['a'] = jv
     if start >= 2:
         model['c'] = [1]
+    if start == 3:
+        model = {'a': None, 'b': True, 'c': 0}
     path = '/w/x'
     if kind == 'array':
         put_array(D, w, path, 3, 'int32', 'little', (), metadata=dict(model) if model else None)
@@ -236,6 +248,8 @@ def replay_meta(cex, d):
         model['a'] = jv
     if fx['start'] >= 2:
         model['c'] = [1]
+    if fx['start'] == 3:
+        model = {'a': None, 'b': True, 'c': 0}
 
     def val(kind):
         return {'int': (iv, iv), 'float': (2.5, 2.5), 'str': ('text é', 'text é'), 'bool': (True, True),
@@ -255,14 +269,23 @@ def replay_meta(cex, d):
             cls = darr.RaggedArray
 
         def check(tag):
-            for nm, hh in (('live', h), ('fresh', cls(p))):
-                if dict(hh.metadata) != model:
-                    probs.append(f'{tag}: {nm} dict(metadata)={dict(hh.metadata)!r} != model {model!r}')
+            for nm, mk in (('live', lambda: h), ('fresh', lambda: cls(p))):
+                try:
+                    got = dict(mk().metadata)
+                except Exception as e:
+                    probs.append(f'{tag}: {nm} metadata unreadable: {type(e).__name__}')
+                    continue
+                if got != model:
+                    probs.append(f'{tag}: {nm} dict(metadata)={got!r} != model {model!r}')
             ex = os.path.exists(p + '/metadata.json')
             if ex != bool(model):
                 probs.append(f'{tag}: metadata.json exists={ex} but model={model!r}')
-            elif ex and json.load(open(p + '/metadata.json')) != model:
-                probs.append(f'{tag}: file content differs')
+            elif ex:
+                try:
+                    if json.load(open(p + '/metadata.json')) != model:
+                        probs.append(f'{tag}: file content differs')
+                except ValueError:
+                    probs.append(f'{tag}: metadata.json is no longer valid JSON')
         sels = [(int(fx['s1']), int(fx['t1'])), (int(fx['s2']), int(fx['t2']))]
         keyof = lambda s: KEYS[s] if s < 3 else 'zz'
         for i, op in enumerate(fx['ops']):
@@ -276,6 +299,13 @@ def replay_meta(cex, d):
                         probs.append('non-serialisable accepted')
                     except TypeError:
                         pass
+                    check(f'after rejected op {i}')
+                    continue
+                elif op.startswith('pop-default-'):
+                    dv = {'pop-default-none': None, 'pop-default-true': True, 'pop-default-zero': 0}[op]
+                    got = md.pop(k, dv)
+                    if got != model.pop(k, dv):
+                        probs.append('pop default value differs')
                 elif op == 'setitem':
                     md[k] = v
                     model[k] = jvv
@@ -349,6 +379,13 @@ def obligations(tier):
               sym='s1, s2, t1, t2 (key selectors over {a,b,c,missing}), iv, jv, dflt (int payloads), probe',
               bounds='start in {no file, 1 key, 2 keys}; sequences of <= 2 operations over 8 op kinds; keys from a '
                      '3-key space + one never-present key; 11 JSON-representable value kinds with symbolic int payloads'),
+           Ob('MD-pop-identical-default', 'h_meta',
+              splits=[dict(kind=k, start=3, ops=(op,), vkinds=('int',))
+                      for k in ('array', 'ragged') for op in ('pop-default-none', 'pop-default-true', 'pop-default-zero')]
+              + [dict(kind='array', start=3, ops=(op, op2), vkinds=('int',))
+                 for op in ('pop-default-none', 'pop-default-zero') for op2 in ('pop-default-true', 'popitem')],
+              timeout=T, replay='replay_meta', sym='s1, s2 (key selectors), probe',
+              bounds="start {'a': None, 'b': True, 'c': 0}; pop(key, default) where the default is the very object that may be stored"),
            Ob('MD-reject', 'h_meta',
               splits=[dict(kind=k, start=st, ops=(op,), vkinds=('bad',), _must=('end', 'rejected'))
                       for k in ('array', 'ragged') for st in (0, 2) for op in ('setitem', 'update')],
